@@ -519,3 +519,30 @@ func init() {
 
 // threadJobs is filled in by the thread layer (empty when a property has no concurrent harness).
 func threadJobs(prop string) []*Job { return nil }
+
+func init() {
+	props["C12"] = &PropSpec{
+		ID: "C12",
+		Jobs: func(tier string) []*Job {
+			var js []*Job
+			maxK := 3
+			if tier == "thorough" {
+				maxK = 4
+			}
+			for k := 1; k <= maxK; k++ {
+				js = append(js, &Job{Harness: "C12History", Params: map[string]int{"k": k}})
+			}
+			js = append(js, threadJobs("C12")...)
+			return js
+		},
+		Bounds: func(tier string) string {
+			k := 3
+			if tier == "thorough" {
+				k = 4
+			}
+			return fmt.Sprintf("every sequence of k<=%d requests over 10 shapes (direct, ignored trailing slash, 404, 405, OPTIONS, redirect, manual Lookup+Clone+Close, CloneWith in a handler, Clone in a handler, tree replaced by Handle before the request) with distinct tokens in path parameter, query, request header, response header, status and body size; every sync.Pool.Get explores each pooled context; every getter read in each handler; clones re-read at the end", k)
+		},
+		RequiredCovers: []string{"Clone of a Lookup context", "CloneWith in a handler", "Clone taken in a handler"},
+		Assumptions:    []string{"sync.Pool modelled as a bag from which Get may return any pooled object (all choices explored) or call New when empty", "concurrent mixes of requests are not decided by this check (see level_note)"},
+	}
+}
